@@ -170,7 +170,9 @@ func streams(t *simkit.Tape, o *simkit.Outcome, g guard) {
 		cfg := model.DrawJSONConfig(t)
 		base = model.SerialiseJSON(t, cfg, model.GenJSON(t, cfg))
 	default:
-		base = model.GenHTML(t, model.DrawHTMLConfig(t))
+		hc := model.DrawHTMLConfig(t)
+		hc.Huge = 0
+		base = model.GenHTML(t, hc)
 	}
 	n := 2 + t.Draw(6)
 	for i := 0; i < n; i++ {
